@@ -6,6 +6,8 @@ import (
 	"regexp"
 	"strconv"
 	"strings"
+
+	"verifharness/internal/rng"
 )
 
 // ---- abstract queries (mirror of Model/MuxConcSeq.v qitem) ----
@@ -18,14 +20,123 @@ type qitem struct {
 
 const badToken = "a;b" // url.ParseQuery: "invalid semicolon separator in query"
 
-func rawQuery(q []qitem) string {
+func rawQuery(q []qitem) string { return rawQueryEnc(q, 0) }
+
+// pct percent-encodes one byte, with upper- or lower-case hex digits.
+func pct(c byte, lower bool) string {
+	if lower {
+		return fmt.Sprintf("%%%02x", c)
+	}
+	return fmt.Sprintf("%%%02X", c)
+}
+
+// escapeSome is url.QueryEscape with, in addition, some of the bytes that need no escaping
+// percent-encoded (an equivalent spelling, RFC 3986 2.3), and a space as "+" or as "%20".
+func escapeSome(s string, r *rng.R, num, den int, space20 bool) string {
+	var b strings.Builder
+	for i := 0; i < len(s); i++ {
+		c := s[i]
+		switch {
+		case c == ' ':
+			if space20 {
+				b.WriteString("%20")
+			} else {
+				b.WriteByte('+')
+			}
+		case (c >= 'a' && c <= 'z') || (c >= 'A' && c <= 'Z') || (c >= '0' && c <= '9') || c == '_' || c == '-' || c == '.' || c == '~':
+			if r.Bool(num, den) {
+				b.WriteString(pct(c, r.Bool(1, 3)))
+			} else {
+				b.WriteByte(c)
+			}
+		default:
+			b.WriteString(pct(c, false))
+		}
+	}
+	return b.String()
+}
+
+// directiveKey spells a key that starts with "_HLS_" with a non-empty subset of the five
+// characters of that prefix percent-encoded (%5FHLS_msn, _%48LS_part, %5FHLS%5Fskip, %5f...).
+func directiveKey(k string, r *rng.R) string {
+	mask := 1 + r.Intn(31)
+	switch r.Intn(4) { // the spellings named in the seeded change, often
+	case 0:
+		mask = 1 // %5FHLS_
+	case 1:
+		mask = 2 // _%48LS_
+	case 2:
+		mask = 1 | 16 // %5FHLS%5F
+	}
+	lower := r.Bool(1, 3)
+	var b strings.Builder
+	for i := 0; i < 5; i++ {
+		if mask&(1<<i) != 0 {
+			b.WriteString(pct(k[i], lower))
+		} else {
+			b.WriteByte(k[i])
+		}
+	}
+	b.WriteString(url.QueryEscape(k[5:]))
+	return b.String()
+}
+
+// rawQueryEnc renders the decoded query as a raw query. enc selects, deterministically, one of
+// the equivalent spellings (the decoded query, which is what the model is given, is the same):
+//   0            plain (url.QueryEscape)
+//   mode 1       every directive key has percent-encoded characters in its _HLS_ prefix
+//   mode 2       a mix of plain and encoded directive keys
+//   mode 3       encoded characters in the other keys and in values, directive keys plain
+//   mode 4       everything: encoded directive keys, other keys, values, %20 for a space
+// with mode = enc % 8 (5..7 as 1) and the rest of enc as the seed of the random choices.
+func rawQueryEnc(q []qitem, enc uint64) string {
+	mode := int(enc % 8)
+	if mode >= 5 {
+		mode = 1
+	}
+	r := rng.New(enc, 4242)
 	var parts []string
+	ndir, nenc := 0, 0
+	for _, it := range q {
+		if !it.Bad && strings.HasPrefix(it.K, "_HLS_") {
+			ndir++
+		}
+	}
+	seenDir := 0
 	for _, it := range q {
 		if it.Bad {
 			parts = append(parts, badToken)
-		} else {
-			parts = append(parts, url.QueryEscape(it.K)+"="+url.QueryEscape(it.V))
+			continue
 		}
+		isDir := strings.HasPrefix(it.K, "_HLS_")
+		k, v := url.QueryEscape(it.K), url.QueryEscape(it.V)
+		switch {
+		case enc == 0 || mode == 0:
+		case isDir:
+			seenDir++
+			encode := mode == 1 || mode == 4
+			if mode == 2 {
+				// at least one encoded and, when there are two or more, at least one plain
+				encode = r.Bool(1, 2)
+				if seenDir == ndir && nenc == 0 {
+					encode = true
+				}
+				if ndir >= 2 && seenDir == ndir && nenc == ndir-1 {
+					encode = false
+				}
+			}
+			if encode {
+				nenc++
+				k = directiveKey(it.K, r)
+			}
+			if mode == 4 {
+				v = escapeSome(it.V, r, 1, 3, true)
+			}
+		case mode == 3 || mode == 4:
+			k = escapeSome(it.K, r, 1, 3, mode == 4)
+			v = escapeSome(it.V, r, 1, 3, mode == 4)
+		}
+		parts = append(parts, k+"="+v)
 	}
 	return strings.Join(parts, "&")
 }
